@@ -229,6 +229,11 @@ impl World {
                                 dist.hit("deliver.prepare.conflict");
                                 vec![1, self.small(*conflicting_tx)]
                             }
+                            // PrepareVote::No: the participant refuses a transaction it has already decided (model: VConflict 0)
+                            PrepareVote::No { .. } => {
+                                dist.hit("deliver.prepare.refused_decided");
+                                vec![1, 0]
+                            }
                             _ => vec![9],
                         };
                         self.net.push(Msg::Vote(t, s, v));
@@ -484,6 +489,99 @@ fn run_random(r: &mut Rng, dist: &mut Dist) -> Outcome {
     finish(w, kk, tt, ctmo, &parts0, evs, obs, commits, aborts)
 }
 
+/// random member of the family "stale duplicates of a finished transaction": T1 runs to its decision while copies
+/// of its Prepare / Commit / Abort for one shard stay in flight; a later T2 (often on the same keys) prepares or
+/// commits; then the stale copies of T1 arrive, in either order
+fn run_stale_dup(r: &mut Rng, dist: &mut Dist) -> Outcome {
+    let kk = r.range(1, 2);
+    let np = r.range(2, 3);
+    let parts0: Vec<(Vec<(u64, u64)>, u64)> = (0..np)
+        .map(|_| ((0..kk).filter_map(|k| if r.chance(1, 2) { Some((k, r.range(1, 9))) } else { None }).collect(), *r.pick(&[30000u64, 30000, 30000, 50])))
+        .collect();
+    let pick_parts = |r: &mut Rng, must: Option<u64>| -> Vec<u64> {
+        let mut parts: Vec<u64> = (0..np).collect();
+        r.shuffle(&mut parts);
+        parts.truncate(r.range(1, np) as usize);
+        if let Some(m) = must {
+            if !parts.contains(&m) {
+                parts.push(m);
+            }
+        }
+        parts.sort();
+        parts
+    };
+    let p1 = pick_parts(r, None);
+    let star = *r.pick(&p1);
+    let p2 = if r.chance(5, 6) { pick_parts(r, Some(star)) } else { pick_parts(r, None) };
+    let keep_prep = r.chance(3, 4);
+    let keep_dec = r.chance(3, 4);
+    let commit1 = r.chance(3, 4);
+    let mut acts = vec![];
+    let ops1: Vec<(u64, Vec<POp>)> = p1.iter().map(|s| (*s, gen_ops(r, kk))).collect();
+    acts.push(Act::Ev(Ev::Begin(p1.clone(), ops1, false)));
+    for s in &p1 {
+        acts.push(Act::Deliver("prepare", 1, *s, keep_prep && *s == star));
+    }
+    for s in &p1 {
+        acts.push(Act::Deliver("vote", 1, *s, false));
+    }
+    let dec: &'static str = if commit1 { "commit" } else { "abort" };
+    acts.push(Act::Ev(if commit1 { Ev::Commit(1) } else { Ev::Abort(1) }));
+    for s in &p1 {
+        acts.push(Act::Deliver(dec, 1, *s, keep_dec && *s == star));
+    }
+    if r.chance(1, 4) {
+        acts.push(Act::Ev(Ev::Advance(*r.pick(&[10u64, 51, 101]))));
+    }
+    let ops2: Vec<(u64, Vec<POp>)> = p2.iter().map(|s| (*s, gen_ops(r, kk))).collect();
+    acts.push(Act::Ev(Ev::Begin(p2.clone(), ops2, false)));
+    let stage2 = r.below(4); // 0: T2 only prepared; 1..: T2 decided
+    for s in &p2 {
+        acts.push(Act::Deliver("prepare", 2, *s, false));
+    }
+    if stage2 > 0 {
+        for s in &p2 {
+            acts.push(Act::Deliver("vote", 2, *s, false));
+        }
+        let commit2 = r.chance(4, 5);
+        acts.push(Act::Ev(if commit2 { Ev::Commit(2) } else { Ev::Abort(2) }));
+        for s in &p2 {
+            acts.push(Act::Deliver(if commit2 { "commit" } else { "abort" }, 2, *s, false));
+        }
+    }
+    // the stale copies of T1 reach shard `star`
+    let mut stale: Vec<&'static str> = vec![];
+    if keep_prep {
+        stale.push("prepare");
+    }
+    if keep_dec {
+        stale.push(dec);
+    }
+    if r.chance(1, 5) {
+        stale.reverse();
+    }
+    if keep_dec && r.chance(1, 4) {
+        // the decision is re-sent once more (the driver retries broadcasts)
+        acts.push(Act::Deliver(dec, 1, star, true));
+    }
+    for k in stale {
+        acts.push(Act::Deliver(k, 1, star, false));
+    }
+    // whatever is still in flight, each once
+    for _ in 0..12 {
+        acts.push(Act::Ev(Ev::Deliver(0, false)));
+    }
+    if r.chance(1, 3) {
+        acts.push(Act::Ev(Ev::Timeouts));
+        acts.push(Act::Ev(Ev::TakeAborts));
+        for _ in 0..4 {
+            acts.push(Act::Ev(Ev::Deliver(0, false)));
+        }
+    }
+    dist.hit("sched.stale_dup");
+    run_script(acts, kk, 2, 100000, &parts0, dist)
+}
+
 fn main() {
     let args = Args::parse();
     quiet_panics();
@@ -662,8 +760,37 @@ fn main() {
         sched.push(&o.term, "corpus differing duplicate votes after a Yes: rejected before and after the tx became Prepared; commit applies on both shards", true);
     }
 
-    for _ in 0..args.budget(700, 30000) {
-        let o = run_random(&mut rng, &mut dist);
+    {
+        // delayed duplicates of Prepare(T1) and Commit(T1) arrive after a later T2 committed on the same key:
+        // T1 is finished on that shard and must not be applied again
+        let parts0 = vec![(vec![(0u64, 5u64)], 30000u64), (vec![], 30000u64)];
+        let acts = vec![
+            Act::Ev(Ev::Begin(vec![0, 1], vec![(0, put(0, 1)), (1, put(1, 1))], false)),
+            Act::Deliver("prepare", 1, 0, true),
+            Act::Deliver("prepare", 1, 1, false),
+            Act::Deliver("vote", 1, 0, false),
+            Act::Deliver("vote", 1, 1, false),
+            Act::Ev(Ev::Commit(1)),
+            Act::Deliver("commit", 1, 0, true),
+            Act::Deliver("commit", 1, 1, false),
+            Act::Ev(Ev::Begin(vec![0, 1], vec![(0, put(0, 2)), (1, put(1, 2))], false)),
+            Act::Deliver("prepare", 2, 0, false),
+            Act::Deliver("prepare", 2, 1, false),
+            Act::Deliver("vote", 2, 0, false),
+            Act::Deliver("vote", 2, 1, false),
+            Act::Ev(Ev::Commit(2)),
+            Act::Deliver("commit", 2, 0, false),
+            Act::Deliver("commit", 2, 1, false),
+            Act::Deliver("prepare", 1, 0, false),
+            Act::Deliver("commit", 1, 0, false),
+            Act::Deliver("vote", 1, 0, false),
+        ];
+        let o = run_script(acts, 2, 2, 100000, &parts0, &mut dist);
+        sched.push(&o.term, "corpus duplicate Prepare+Commit of T1 after T2 committed the same key: shard 0 must keep T2's value (k0=2), as shard 1 does", true);
+    }
+
+    for i in 0..args.budget(700, 30000) {
+        let o = if i % 8 == 7 { run_stale_dup(&mut rng, &mut dist) } else { run_random(&mut rng, &mut dist) };
         dist.hit(&format!("sched.commits.{}", o.commits.min(3)));
         sched.push(&o.term, &o.human, o.commits + o.aborts >= 1 && o.dup_or_loss);
     }
